@@ -11,6 +11,7 @@ INF = 10 ** 30
 TYPE_RANGE = {'u8': (0, 255), 'u16': (0, 65535), 'u32': (0, 2 ** 32 - 1), 'u64': (0, INF), 'usize': (0, INF), 'bool': (0, 1),
               'i8': (-128, 127), 'i16': (-32768, 32767), 'i32': (-2 ** 31, 2 ** 31 - 1), 'i64': (-INF, INF), 'isize': (-INF, INF)}
 VISIT_CAP = 1200
+LEN_MAX = 2 ** 63 - 1
 
 
 def ty_range(f, tid):
@@ -29,6 +30,8 @@ class Interp:
         self.collect_defs()
         self.IN = {}
         self.casts = []    # (block, stmt index, src var, target type)
+        self.ovf = {}      # (block, stmt) -> (op, interval a, interval b, result interval, span, rvalue)
+        self.param_bounds = {}
 
     def err_return_blocks(self):
         f = self.f
@@ -70,7 +73,45 @@ class Interp:
             return pl['l']
         if len(ps) == 1 and isinstance(ps[0], dict) and ps[0].get('n') in ('0', '1'):
             return (pl['l'], ps[0]['n'])
+        # a field reached through a parameter that this function never writes: stable within the function
+        names = []
+        for e in ps:
+            if e == '*':
+                names.append('*')
+            elif isinstance(e, dict) and 'n' in e:
+                names.append(e['n'])
+            else:
+                return None
+        key = (pl['l'], 'field') + tuple(names)
+        if pl['l'] <= self.f.argc and pl['l'] >= 1 and key not in self.written_fields():
+            return key
         return None
+
+    def written_fields(self):
+        if not hasattr(self, '_wf'):
+            wf = set()
+            for b in self.f.blocks:
+                for s in b['s']:
+                    d = s.get('d')
+                    if d and d.get('p'):
+                        names = []
+                        for e in d['p']:
+                            if e == '*':
+                                names.append('*')
+                            elif isinstance(e, dict) and 'n' in e:
+                                names.append(e['n'])
+                        wf.add((d['l'], 'field') + tuple(names))
+                t = b['t']
+                if t['t'] == 'call':
+                    # a &mut self method call may write any field of self
+                    for a in t['args']:
+                        pl = op_place(a)
+                        if pl is not None and not pl.get('p'):
+                            ty = self.f.crate.tstr(self.f.local_ty(pl['l']))
+                            if ty.startswith('&mut '):
+                                wf.add(('anyfield', pl['l']))
+            self._wf = wf
+        return self._wf
 
     def index_bound(self, pl):
         """an index produced by `.iter().enumerate()` over a length-bounded field is < that bound"""
@@ -106,7 +147,7 @@ class Interp:
         if pl is None:
             return (-INF, INF)
         v = self.var_of(o)
-        if v is not None and v in st and st[v] != ty_range(self.f, self.f.local_ty(v if isinstance(v, int) else v[0])):
+        if v is not None and v in st and (not isinstance(v, int) or st[v] != ty_range(self.f, self.f.local_ty(v))):
             return st[v]
         ib = self.index_bound(pl)
         if ib is not None:
@@ -176,11 +217,18 @@ class Interp:
                 if res is None:
                     res = ty_range(f, f.local_ty(dl))
                 if 'WithOverflow' in op:
+                    self.ovf[(bi, si)] = (op, a, b, res, s.get('sp'), r)
                     st[(dl, '0')] = res
                     st[(dl, '1')] = (0, 1)
                     st[dl] = (-INF, INF)
                 else:
                     st[dl] = res
+            elif rv == 'un' and r['op'] == 'Neg':
+                a = self.eval_op(st, r['a'])
+                tr = ty_range(f, f.local_ty(dl))
+                self.ovf[(bi, si)] = ('NegWithOverflow', a, (0, 0), (-a[1], -a[0]), s.get('sp'), {'a': r['a'], 'b': r['a']})
+                res = (-a[1], -a[0])
+                st[dl] = res if (res[0] >= tr[0] and res[1] <= tr[1]) else tr
             else:
                 st[dl] = ty_range(f, f.local_ty(dl))
                 st.pop((dl, '0'), None)
@@ -190,6 +238,8 @@ class Interp:
             dl = t['dst']['l']
             rng = ty_range(f, f.local_ty(dl))
             n = strip_generics(callee_name(t) or '')
+            if (n.endswith('::len') or n.endswith('::count')) and rng[0] == 0:
+                rng = (0, min(rng[1], LEN_MAX))       # a collection's length never exceeds isize::MAX
             if n.endswith('::len') and t['args']:
                 pl = op_place(t['args'][0])
                 if pl is not None:
@@ -214,11 +264,24 @@ class Interp:
             self.f.blocks[bi]['t'] = t
         return st
 
+    def field_ty_range(self, key):
+        # type of the field place: find any read of it
+        for b in self.f.blocks:
+            for s in b['s']:
+                r = s.get('r', {})
+                for o in (r.get('o'), r.get('a'), r.get('b')):
+                    if isinstance(o, dict) and self.var_of(o) == key:
+                        pl = op_place(o)
+                        return ty_range(self.f, pl.get('t', self.f.local_ty(pl['l'])))
+        return (-INF, INF)
+
     def refine(self, st, var, op, k, taken):
         """refine interval of var given `var op k` is `taken`"""
         if var not in st:
             if isinstance(var, int):
                 st[var] = ty_range(self.f, self.f.local_ty(var))
+            elif len(var) > 2 and var[1] == 'field':
+                st[var] = self.field_ty_range(var)
             else:
                 return
         lo, hi = st[var]
@@ -290,7 +353,7 @@ class Interp:
         f = self.f
         init = {}
         for a in range(1, f.argc + 1):
-            init[a] = ty_range(f, f.local_ty(a))
+            init[a] = self.param_bounds.get(a, ty_range(f, f.local_ty(a)))
         self.IN = {0: init}
         visits = {}
         work = [0]
